@@ -365,6 +365,47 @@ def run(tier: str, seed: int) -> int:
             if r.shape != ref.shape or not float(np.max(np.abs(r - ref))) <= RTOL * (1 + float(np.max(np.abs(ref)))):
                 run_.violation(dict(key, mode="value"), {"N": N, "history": list(hist), "position": i})
                 break
+    # ---- call histories on host (NumPy) arrays: a step is a function of its arguments; an eager call leaves them alone, so that the compiled / mapped /
+    # scanned evaluation of the SAME arrays afterwards gives the same numbers (eager first, then jit, vmap, rollout; physical and Fourier entry points)
+    for name in sorted(classes):
+        D = 1 if name not in ("NavierStokesVorticity", "KolmogorovFlowVorticity", "NavierStokesVelocity", "KolmogorovFlowVelocity") else \
+            (2 if "Vorticity" in name else 3)
+        N = 12 if D < 3 else 6
+        try:
+            base = registry.make(name, D, N, L=2.0, dt=0.01)
+        except Exception:  # noqa: BLE001
+            continue
+        for wname, st, nargs in ((name, base, 1), (f"RepeatedStepper({name})", ex.RepeatedStepper(base, 2), 1), (f"ForcedStepper({name})", ex.ForcedStepper(base), 2)):
+            u_np = rng.standard_normal((base.num_channels,) + (N,) * D) * 0.3
+            args_np = [u_np] + ([rng.standard_normal(u_np.shape) * 0.2] if nargs == 2 else [])
+            keep = [a.copy() for a in args_np]
+            uh_np = np.asarray(ex.fft(jnp.asarray(u_np)))
+            argsh_np = [uh_np] + ([np.asarray(ex.fft(jnp.asarray(args_np[1])))] if nargs == 2 else [])
+            keeph = [a.copy() for a in argsh_np]
+            key = {"kind": "host-array-history", "cls": wname}
+            run_.case(("host", wname))
+            try:
+                ref = np.asarray(st(*[jnp.asarray(a) for a in keep]))
+                e1 = np.asarray(st(*args_np))
+                untouched = all(np.array_equal(a, b) for a, b in zip(args_np, keep))
+                e2 = np.asarray(st(*args_np))
+                j1 = np.asarray(eqx.filter_jit(st)(*args_np))
+                v1 = np.asarray(jax.vmap(st)(*[np.stack([a, a]) for a in args_np]))[1]
+                f1 = np.asarray(st.step_fourier(*argsh_np))
+                untouched_h = all(np.array_equal(a, b) for a, b in zip(argsh_np, keeph))
+                f2 = np.asarray(eqx.filter_jit(st.step_fourier)(*argsh_np))
+                r1 = np.asarray(ex.rollout(st, 2)(args_np[0]))[0] if nargs == 1 else None
+            except Exception as e:  # noqa: BLE001
+                run_.violation(dict(key, mode="raised"), {"exception": f"{type(e).__name__}: {str(e)[:300]}"})
+                continue
+            sc = RTOL * (1 + float(np.max(np.abs(ref))))
+            if not untouched or not untouched_h:
+                run_.violation(dict(key, mode="an eager call changed its argument"), {"physical": not untouched, "fourier": not untouched_h})
+            for nm, r in (("eager", e1), ("eager again", e2), ("jit after eager", j1), ("vmap after eager", v1), ("rollout after eager", r1)):
+                if r is not None and (r.shape != ref.shape or not float(np.max(np.abs(r - ref))) <= sc):
+                    run_.violation(dict(key, mode="value", what=nm), {})
+            if f1.shape != f2.shape or not float(np.max(np.abs(f1 - f2))) <= RTOL * (1 + float(np.max(np.abs(f1)))):
+                run_.violation(dict(key, mode="value", what="step_fourier: jit after eager"), {})
     run_.extra["construction_histories"] = len(histories)
     run_.extra["uncovered"] = uncovered
     run_.rule = ("integer cases: one per terminal TLC state (program record; exact equality and shape); stepper cases: (class, program) with the eager "
